@@ -19,3 +19,4 @@ def run(ctx, rep):
     rep.trusted += ['rustc nightly MIR; encoding of format_args! templates on this nightly (decoder fails closed)', 'engines/mirfacts', 'regex-syntax group and flag semantics']
     from props import gen
     gen.rules_c11(ctx, rep)
+    gen.rule_must_reject(ctx, rep, gen.configs(ctx), ['undefined_subpattern'], floor=4)
